@@ -211,20 +211,29 @@ def run_direct(ctx, insts, jobs=12, chunk=150):
 
 
 # ------------------------------------------------------------------------------------------- Coq terms
+def _lst(items, ty):
+    """Coq list literal; an empty list gets its type so that Coq can infer the element type"""
+    return "[" + "; ".join(items) + "]" if items else f"([] : list {ty})"
+
+
 def geno_term(g):
-    return "[" + "; ".join(f"{a}%Z" for a in sorted(g, reverse=True)) + "]"
+    return _lst([f"{a}%Z" for a in sorted(g, reverse=True)], "Z")
+
+
+def genos_term(gs):
+    return _lst([geno_term(g) for g in gs], "geno")
 
 
 def triples_term(ts):
-    return "[" + "; ".join(f"({f}, {m}, {c})" for f, m, c in ts) + "]"
+    return _lst([f"({f}, {m}, {c})" for f, m, c in ts], "triple")
 
 
 def entries_term(es):
-    return "[" + "; ".join(f"({i}, {'true' if side else 'false'}, {a}%Z, {q}%Z)" for i, side, a, q in es) + "]"
+    return _lst([f"({i}, {'true' if side else 'false'}, {a}%Z, {q}%Z)" for i, side, a, q in es], "entry")
 
 
 def zpairs_term(l):
-    return "[" + "; ".join(f"({a}%Z, {b}%Z)" for a, b in l) + "]"
+    return _lst([f"({a}%Z, {b}%Z)" for a, b in l], "(Z * Z)")
 
 
 def direct_case_term(inst, res):
@@ -246,14 +255,14 @@ def direct_case_term(inst, res):
             s0 = dict(map(tuple, res["sr"][i][0]))
             s1 = dict(map(tuple, res["sr"][i][1]))
             alle.append((s0.get(pos, -9), s1.get(pos, -9)))
-        gs = "[" + "; ".join(geno_term(g) for g in inst["genos"][j]) + "]"
+        gs = genos_term(inst["genos"][j])
         cols.append(f"({gs}, {res['tv'][j]}%N, {entries_term(es)}, {zpairs_term(alle)})")
-    return f"({n}, {triples_term(ped['triples'])}, [" + ";\n   ".join(cols) + "])"
+    return f"({n}, {triples_term(ped['triples'])}, " + _lst(cols, "direct_col") + ")"
 
 
 def conflict_case_term(inst, raised):
     ped = inst["ped"]
-    cols = "[" + "; ".join("[" + "; ".join(geno_term(g) for g in col) + "]" for col in inst["genos"]) + "]"
+    cols = _lst([genos_term(col) for col in inst["genos"]], "(list geno)")
     return f"({ped['n']}, {triples_term(ped['triples'])}, {cols}, {'true' if raised else 'false'})"
 
 
@@ -486,11 +495,11 @@ def cli_case_term(tr, gts, calls, perturb=None):
         else:
             tv = "None"
             alle = []
-        gst = "[" + "; ".join(geno_term(g) for g in gs) + "]"
-        cst = "[" + "; ".join(call_term(c) for c in cs) + "]"
+        gst = genos_term(gs)
+        cst = _lst([call_term(c) for c in cs], "call")
         cols.append(f"({gst}, {cst}, {tv}, {'true' if p in covered else 'false'}, {'true' if p in acc else 'false'}, "
                     f"{entries_term(per_pos.get(p, []))}, {zpairs_term(alle)})")
         meta.append({"pos": p, "gs": gs, "calls": cs, "acc": p in acc})
-    term = (f"({n}, {triples_term(ts)}, {'true' if tr['genetic_haplotyping'] else 'false'}, [\n   "
-            + ";\n   ".join(cols) + "])")
+    term = (f"({n}, {triples_term(ts)}, {'true' if tr['genetic_haplotyping'] else 'false'}, "
+            + _lst(cols, "cli_col") + ")")
     return term, meta, ts
